@@ -7,6 +7,7 @@ mod wire;
 mod ev;
 mod layout;
 mod s_events;
+mod s_frames;
 
 use std::io::{BufRead, Write};
 use wire::*;
@@ -36,6 +37,9 @@ fn main() {
                 "EV" => s_events::gen_ev(&mut r, thorough, &mut cx),
                 "DEC" => s_events::gen_dec(&mut r, thorough, &mut cx),
                 "AMB" => s_events::gen_amb(&mut r, thorough, &mut cx),
+                "USE" | "CAE" => s_frames::gen_frames(&mut r, thorough, &mut cx),
+                "USD" => s_frames::gen_usd(&mut r, thorough, &mut cx),
+                "CAD" => s_frames::gen_cad(&mut r, thorough, &mut cx),
                 s => { eprintln!("unknown stream {}", s); std::process::exit(2); }
             }
         }
@@ -44,6 +48,10 @@ fn main() {
                 "EV" => s_events::exec_ev,
                 "DEC" => s_events::exec_dec,
                 "AMB" => s_events::exec_amb,
+                "USE" => s_frames::exec_use,
+                "USD" => s_frames::exec_usd,
+                "CAE" => s_frames::exec_cae,
+                "CAD" => s_frames::exec_cad,
                 s => { eprintln!("unknown stream {}", s); std::process::exit(2); }
             };
             let stdin = std::io::stdin();
